@@ -1,18 +1,38 @@
 import Driver.Proto
 import Model.NatSort
+import Model.NatSortGo
 open Proto NatSort
+
+/-- one character per outcome of a comparison (used by the `row` lines) -/
+def sign (i : Int) : Char := if i < 0 then '<' else if i = 0 then '=' else '>'
+
+/-- `row ci p sa sb c1`: the 256 outcomes of comparing `p ++ [c1] ++ sa` with `p ++ [c2] ++ sb` for every byte `c2`,
+    even `c2` through the index-level transcription and odd `c2` through the chunk-level model (they are proved
+    equal: `C20.go_transcription_refines`) -/
+def row (ci : Bool) (p sa sb : List Nat) (c1 : Nat) : String :=
+  let a := p ++ c1 :: sa
+  let aA := a.toArray
+  String.ofList ((List.range 256).map fun c2 =>
+    let b := p ++ c2 :: sb
+    if c2 % 2 = 0 then sign (NatSortGo.naturalCmpA aA b.toArray ci) else sign (naturalCmp a b ci))
 
 def step (_ : Unit) (line : String) : Unit × String :=
   let out :=
     match words line with
     | ["cmp", ci, a, b] =>
+      -- the index-level, statement-for-statement transcription of the Go function (Model/NatSortGo.lean)
       match hexBytes? a, hexBytes? b with
-      | some x, some y => toString (naturalCmp x y (ci == "1"))
+      | some x, some y => toString (NatSortGo.naturalCmpA x.toArray y.toArray (ci == "1"))
       | _, _ => "bad-op"
     | ["less", ci, a, b] =>
+      -- the chunk-level model the order theorems are stated about (Model/NatSort.lean)
       match hexBytes? a, hexBytes? b with
       | some x, some y => toString (naturalLess x y (ci == "1"))
       | _, _ => "bad-op"
+    | ["row", ci, p, sa, sb, c] =>
+      match hexBytes? p, hexBytes? sa, hexBytes? sb, hexBytes? c with
+      | some p, some sa, some sb, some [c1] => row (ci == "1") p sa sb c1
+      | _, _, _, _ => "bad-op"
     | "sorta" :: ws =>
       match ws.mapM hexBytes? with
       | some l => " ".intercalate ((sortAsc l).map bytesHex)
